@@ -118,3 +118,10 @@ contract(f"{DB}::DatabaseService.restore_backup", props=["C17"],
                   ("service_healthy_after_restore", f"implies(result, self.health_state_actual == {HS}.GOOD)"),
                   ("not_running_refused", "implies(old(self.operating_state) != ServiceOperatingState.RUNNING, result == False)")],
          modifies=["heap"], allocates=True)
+
+# the download reports success exactly when the server answered the RETR with status OK (the rest of request_file is the network exchange)
+contract("src/primaite/simulator/system/services/ftp/ftp_client.py::FTPClient.request_file#verdict", props=["C17"],
+         region=("block", {"start": "if payload.status_code == FTPStatusCode.OK:", "count": 1}),
+         types={"self": "FTPClient", "payload": "FTPPacket", "src_folder_name": "str", "src_file_name": "str"},
+         ensures=[("success_iff_the_server_said_ok", "result == (payload.status_code == FTPStatusCode.OK)")],
+         modifies=[], allocates=True)
